@@ -2165,7 +2165,10 @@ def preprocess_file(
     if include_dirs is None:
         include_dirs = set()
     if file_path is not None:
-        include_dirs.add(os.path.abspath(os.path.dirname(file_path)))
+        # Search next to the file as well, without modifying the caller's set
+        include_dirs = set(include_dirs) | {
+            os.path.abspath(os.path.dirname(file_path))
+        }
     pp_skips = []
     pp_defines = []
     pp_stack = []
